@@ -18,6 +18,7 @@
 (*   "evade"    single check x interpose / capture by each kind            *)
 (*   "givechk"  every way a move gives check (direct, unmasking, through   *)
 (*              the pawn removed en passant, castling rook, promotion)     *)
+(*   "noquiet"  every legal move is a capture (boxed-in king in check)     *)
 (* SHARD / NSHARDS split a family on its first enumeration variable.       *)
 (***************************************************************************)
 EXTENDS Chess, Json, Reporting
@@ -258,6 +259,42 @@ FamGiveChk ==
                   ELSE \A wk \in {0, 63} :
                          Emit(<< <<wk, W(King)>>, <<r[i], W(xk)>>, <<r[j], W(sk)>>, <<bk, Bl(King)>> >>, {}, -1, "givechk-unmask")
 
+(***************************************************************************)
+(* noquiet: positions in which every legal move is a capture (a boxed-in   *)
+(* king checked by a knight or by an adjacent protected piece): the staged *)
+(* picker has to deliver its captures - winning, equal and losing ones -   *)
+(* without any quiet move in the list.                                     *)
+(***************************************************************************)
+EmitIfNoQuiet(pl, tag) ==
+    IF ~Distinct(pl) THEN TRUE
+    ELSE LET p == PosOf(pl, {}, -1)
+         IN  IF ~LegalPosition(p) THEN TRUE
+             ELSE LET lm == Legal(p)
+                  IN  IF lm # {} /\ \A m \in lm : m.kind \in {1, 2}
+                      THEN EmitOne(p, tag) /\ EmitOne(Mirror(p), tag)
+                      ELSE TRUE
+
+Near(s) == KingAttacks(s) \cup KnightAttacks(s)
+FamNoQuiet ==
+    \* box: Kh1, Rg1, pawns h2 (and g2 with the knight); checker: knight f2 / queen or rook g2
+    \A box \in {<< << <<7, W(King)>>, <<6, W(Rook)>>, <<14, W(Pawn)>>, <<15, W(Pawn)>>, <<13, Bl(Knight)>> >>, 13>>,
+                 << << <<7, W(King)>>, <<6, W(Rook)>>, <<15, W(Pawn)>>, <<14, Bl(Queen)>> >>, 14>>,
+                 << << <<7, W(King)>>, <<6, W(Bishop)>>, <<15, W(Pawn)>>, <<14, Bl(Rook)>> >>, 14>>} :
+      LET t == box[2]
+          far == {t + 32, (t + 36) % 64, 8 + (t % 8), 16 + ((t + 3) % 8), 40, 47}
+          cand == (Near(t) \cup far) \ {7}
+      IN  \A xs \in {s \in cand : InShard(s)} : \A xk \in {Knight, Bishop, Rook, Queen} :
+            \A bk \in {56, 59} :
+              /\ EmitIfNoQuiet(box[1] \o << <<xs, W(xk)>>, <<bk, Bl(King)>> >>, "noquiet")
+              /\ \A ds \in cand : \A dk \in {Pawn, Knight, Bishop, Rook, Queen} :
+                    IF dk = Pawn /\ RankOf(ds) \in {0, 7} THEN TRUE
+                    ELSE /\ (bk = 56 \/ Keep(xs, ds)) =>
+                               EmitIfNoQuiet(box[1] \o << <<xs, W(xk)>>, <<ds, Bl(dk)>>, <<bk, Bl(King)>> >>, "noquiet")
+                         \* a second white capturer of another kind
+                         /\ (bk = 56 /\ xk # Queen /\ (xs * 7 + ds * 13) % (6 * DENSITY) = 0) =>
+                               \A ys \in KingAttacks(t) : EmitIfNoQuiet(box[1] \o << <<xs, W(xk)>>, <<ys, W(Queen)>>, <<ds, Bl(dk)>>,
+                                                                          <<bk, Bl(King)>> >>, "noquiet")
+
 Run ==
     CASE FAMILY = "ep" -> FamEp
       [] FAMILY = "castle" -> FamCastle
@@ -268,6 +305,7 @@ Run ==
       [] FAMILY = "kingwalk" -> FamKingWalk
       [] FAMILY = "evade" -> FamEvade
       [] FAMILY = "givechk" -> FamGiveChk
+      [] FAMILY = "noquiet" -> FamNoQuiet
 
 ASSUME Run
 
